@@ -228,7 +228,7 @@ CLAIMED = {
              "numerical pipeline's behaviour on arbitrary inputs): a validity oracle (presence, shapes, finiteness except the documented NaNs and exactly there incl. chi against the region "
              "layout, hy, dy > 0, dx of one sign, no folded cell, no all-zero staggered copy) on every corpus grid; 20+ configurations around the envelope (an exception or a valid file, never "
              "a hang); command-line unknown / misspelt options, the script's own options, the shipped root-level option files; examples/tokamak and examples/torpex-xpoint; API option "
-             "consistency. The chi NaN pattern is checked at the x- and y-faces too (finding F25, fixed); the envelope includes curvature_smoothing='smoothnl' with and without a toroidal field.",
+             "consistency. The chi NaN pattern is checked at the x- and y-faces too (finding F25, fixed); the envelope includes curvature_smoothing='smoothnl' with and without a toroidal field. The two iterations of contour construction (the Newton refinement of a point, the equal-spacing iteration of a FineContour) are bounded by their own counters in ANY arithmetic (theorems C12_newton_refinement_is_bounded, C12_equal_spacing_iteration_is_bounded, on models run bit for bit against the real methods in C01 / C05).",
         note="Known finding F23 (all-zero x-face copies of the non-orthogonal metric / curvature) is reported as KNOWN-FINDING lines.  The shipped root option files can only be checked for "
              "acceptance of their option set: the equilibria they were tuned for are git-LFS pointers.  Equilibrium-only options passed to BoutMesh with a changed value are ignored by design "
              "(unknown-key rejection lives in the scripts): observed, not failed.",
